@@ -168,3 +168,9 @@ package parser
 //@ grammar C15 parser/parser.y parser/parser.y.go goyacc -p grits -o parser/parser.y.go parser/parser.y
 //@ precedence C15 %left SEQUENCE RANGLE
 //@ precedence C15 %right TIMES LOLLI UP_ARROW DOWN_ARROW
+
+// C11, C12: the driver is generated code and stays trusted as a program (it terminates, does not panic, reads every
+// token it is given); what is pinned on every run is that the checked-in driver is the generator's output for the
+// checked-in grammar, so a change to either that is not reflected in the other is reported.
+//@ grammar C11 parser/parser.y parser/parser.y.go goyacc -p grits -o parser/parser.y.go parser/parser.y
+//@ grammar C12 parser/parser.y parser/parser.y.go goyacc -p grits -o parser/parser.y.go parser/parser.y
